@@ -452,10 +452,12 @@ def nftSetup (c : Call) : SetupRes :=
 
 /-! ## tproxy -/
 
-/-- `ns_width = 32 if family == socket.AF_INET else 128` (tproxy.py, after
-`proposed_fixes/C03-tproxy-ipv6-dns-mask.diff`; the code before it used `/32` for both
-families, see `C03_tproxy_dns_mask32_v6_false`). -/
-def tproxyDnsWidth (v6 : Bool) : Nat := if v6 then 128 else 32
+/-- `--dest '%s/32' % ip` — the literal mask of tproxy.py (DNS rules), used for BOTH families.
+For IPv6 this is a /32 network, not the name server (known finding
+`C03:tproxy:ipv6-ns-mask32:dns-divert-of-non-nameserver`, theorem
+`C03_tproxy_dns_mask32_v6_false`; `proposed_fixes/C03-tproxy-ipv6-dns-mask.diff` documents the
+one-line repair, not applied because the repository's own test pins `/32`). -/
+def tproxyDnsWidth (_v6 : Bool) : Nat := 32
 
 def tproxyDnsMatch (v6 : Bool) (ns : Ns) : Match :=
   { dst := some ⟨v6, ns.ip, ns.addr, some (tproxyDnsWidth v6)⟩, proto := some .udp,
